@@ -17,6 +17,7 @@ Does not decide: Path::extension semantics on odd names (trusted std).
 """
 import json
 
+import decide
 from mir import CheckerError, op_local
 from c08 import var_of
 
@@ -334,7 +335,8 @@ def run(prog, rep, tier):
 
     # ------------------------------------------------------------ R16.7 no vacuous early fallback
     R167 = rep.rule("R16.7", "an all-characters test that returns a fallback is guarded against the empty string")
-    alls = [c for c in b.live_calls() if c.o.endswith("Iterator::all") and "Chars" in (c.callee.get("self") or "")]
+    # `s.chars().all(p)` and its mirror image `!s.chars().any(!p)` are both vacuously "true" for an empty string
+    alls = [c for c in b.live_calls() if (c.o.endswith("Iterator::all") or c.o.endswith("Iterator::any")) and "Chars" in (c.callee.get("self") or "")]
     for i, c in enumerate(alls):
         # the string under test
         def str_root(op):
@@ -354,6 +356,23 @@ def run(prog, rep, tier):
                     nonempty_t = {int(v): tb for v, tb in t[2]}.get(0)
                     if nonempty_t is not None and b.dominates(nonempty_t, c.bb):
                         guarded = True
+            # `s.len() > 0` / `s.len() != 0` / `0 < s.len()` as the guard
+            if g.d.split("::")[-1] == "len" and g.args and str_root(g.args[0]) & sr:
+                for sw in sorted(b.live):
+                    t = b.term(sw)
+                    if t[0] == "switch" and b.dominates(sw, c.bb):
+                        try:
+                            sd = decide.switch_decisions(b, sw)
+                        except Exception:
+                            sd = None
+                        for tgt, d in (sd or []):
+                            if d[0] == "cmp" and b.dominates(tgt, c.bb):
+                                x, y = d[2], d[3]
+                                is_len = lambda r: r and r[0] == "call" and r[1] == "len" and r[2] == g.bb
+                                is_zero = lambda r: r and r[0] == "const" and str(r[1]) == "0"
+                                op_ = d[1] if d[4] else decide.NEG[d[1]]
+                                if (is_len(x) and is_zero(y) and op_ in ("gt", "ne")) or (is_zero(x) and is_len(y) and op_ in ("lt", "ne")):
+                                    guarded = True
         rep.examined(R167, "%s|all#%d" % (FN, i), sample={"line": c.line, "guarded_by_non_empty": guarded})
         if not guarded:
             rep.violation(R167, "%s|all#%d" % (FN, i), "pathbuf_to_filetype_impl: `.chars().all(..)` (line %d) is true for an empty string, and names that are not valid UTF-8 are seen as empty here; they would take the fallback before their suffix is looked at" % c.line)
